@@ -6,9 +6,9 @@ from specs.common import run, ASSUME_COMMON
 # (slots 0..63), all one-byte appends (64) / prepends (65), all truncations/deletions/duplications
 # (66), inject sweep over all 256 flag bytes (67); every other case is one seeded inject round trip
 # plus 8 generated extract inputs.  20 500 quick cases = 9 complete bases (4 of them plain
-# version-00 headers) + 19 878 random cases; 5 000 000 thorough cases = 2 228 bases.
+# version-00 headers) + 19 878 random cases; 2 500 000 thorough cases = 1 114 bases.
 SPEC = {
-    "runs": [run("e1-recogniser", "c09_w3c", "asan", 20500, 5000000, need_lib=False)],
+    "runs": [run("e1-recogniser", "c09_w3c", "asan", 20500, 2500000, need_lib=False)],
     "floors": {
         # the enumerated block is deterministic: 4 of the 9 quick bases are plain version-00 headers
         "quick": {"enum_single_byte_mutants_v00": 14080, "enum_positions_v00": 55, "enum_flag_bytes_injected": 512,
@@ -19,13 +19,13 @@ SPEC = {
                   "extract_accept_surrounding_ows": 1500, "extracts_random_bytes": 3000,
                   "reject:version-ff": 300, "reject:zero-trace-id": 300, "reject:zero-span-id": 250,
                   "reject:v00-length>55": 1000, "reject:length<55": 3000, "extract_tracestate_judged": 5000},
-        "thorough": {"enum_single_byte_mutants_v00": 14080 * 250, "enum_flag_bytes_injected": 256 * 600,
-                     "enum_one_byte_extensions": 512 * 600, "roundtrips": 1500000, "roundtrips_flags_other_bits": 900000,
-                     "injects_with_tracestate": 700000, "injects_invalid_context": 300000,
-                     "extract_must_accept": 3000000, "extract_must_reject": 8000000,
-                     "extract_accept_higher_version": 1500000, "extract_accept_surrounding_ows": 500000,
-                     "extracts_random_bytes": 900000, "reject:version-ff": 250000, "reject:zero-trace-id": 200000,
-                     "reject:zero-span-id": 80000, "reject:v00-length>55": 1000000, "extract_tracestate_judged": 3000000},
+        "thorough": {"enum_single_byte_mutants_v00": 14080 * 125, "enum_flag_bytes_injected": 256 * 300,
+                     "enum_one_byte_extensions": 512 * 300, "roundtrips": 750000, "roundtrips_flags_other_bits": 450000,
+                     "injects_with_tracestate": 350000, "injects_invalid_context": 150000,
+                     "extract_must_accept": 1500000, "extract_must_reject": 4000000,
+                     "extract_accept_higher_version": 750000, "extract_accept_surrounding_ows": 250000,
+                     "extracts_random_bytes": 450000, "reject:version-ff": 125000, "reject:zero-trace-id": 100000,
+                     "reject:zero-span-id": 40000, "reject:v00-length>55": 500000, "extract_tracestate_judged": 1500000},
     },
     "engine": "E1 model-oracle",
     "technique": ("independent three-valued recogniser of the W3C traceparent grammar as oracle for the real header-only "
@@ -55,7 +55,7 @@ SPEC = {
     "coverage_extra": {
         "exhaustive_subspaces": [
             {"name": "single-byte substitutions of a valid 55-byte version-00 traceparent (55 positions x 256 values)",
-             "size_per_base": 14080, "counter": "enum_single_byte_mutants_v00", "bases": {"quick": 4, "thorough": 835}},
+             "size_per_base": 14080, "counter": "enum_single_byte_mutants_v00", "bases": {"quick": 4, "thorough": 418}},
             {"name": "single-byte substitutions of mixed-case / higher-version / suffixed / OWS-wrapped valid headers",
              "counter": "enum_single_byte_mutants_other_bases"},
             {"name": "one-byte appends and prepends (256 values each) per base", "counter": "enum_one_byte_extensions"},
